@@ -242,6 +242,20 @@ theorem C12_superclass_names_terminate_sound (decls : List QDecl) (ops : List Op
   intro a ha
   exact superChain_sound _ _ _ hl' a (by simpa using ha)
 
+/-- **`_get_superclass_names` is complete** on every reachable store: every class the start class
+    descends from appears in the returned list (up to case).  With the previous theorem: the list is
+    exactly the ancestor line. -/
+theorem C12_superclass_names_complete (s : State) (hr : Reachable s) (x : Cls) (hx : x ∈ s.classes)
+    (a : Name) (hd : Spec.Desc s.classes x.name a) (l : List Name)
+    (hl : superNames s.classes x.name = .ok l) : ∃ n ∈ l, ieq n a = true := by
+  unfold superNames at hl
+  cases hc : superChain (s.classes.length + 1) s.classes x.name with
+  | error e => simp [hc] at hl
+  | ok l' =>
+    simp [hc] at hl; subst hl
+    obtain ⟨n, hn, hi⟩ := superChain_complete (reachable_forest hr) hd _ _ hc
+    exact ⟨n, by simpa using hn, hi⟩
+
 /-! ### failed operations and queries change nothing -/
 
 /-- an operation answered with an error leaves classes, instances and declarations untouched -/
@@ -401,6 +415,21 @@ theorem C12_new_element_quals_initialised (decls : List QDecl) (q q' : Qual) (h 
     refine ⟨rfl, rfl, rfl, rfl, d, rfl, rfl, rfl, ?_⟩
     cases q.tosub <;> simp [fillFlavor]
 
+/-- **Qualifiers of an overriding element propagate per their flavors**: its qualifier dictionary has
+    the keys of its own qualifiers followed by the keys of the overridden element's ToSubclass
+    qualifiers that it does not declare itself (`Spec.inheritedQuals`); Restricted ones are not
+    inherited.  (`inh` is a NocaseDict: pairwise different keys.) -/
+theorem C12_overriding_element_quals_per_flavor (decls : List QDecl) (own inh r : List Qual)
+    (hpw : List.Pairwise (fun a b => ieq a.name b.name = false) inh)
+    (h : resolveQuals decls own inh true = .ok r) :
+    r.map lname = own.map lname ++ (Spec.inheritedQuals own inh).map lname :=
+  resolveQuals_override_lnames hpw h
+
+example : ∃ r, resolveQuals [wOverride, wDesc] wSubP.quals wBase.quals true = .ok r ∧
+    r.map (·.name) = [['o','v','e','r','r','i','d','e'], ['D','e','s','c']] ∧
+    List.Pairwise (fun a b => ieq a.name b.name = false) wBase.quals :=
+  ⟨okOr (resolveQuals [wOverride, wDesc] wSubP.quals wBase.quals true) [], by decide, by decide, by decide⟩
+
 /- Full statement demanded by the property (qualifiers propagate per their flavors, also at class
    level):   names of (resolved class).quals = names of own quals ++ names of Spec.inheritedQuals own sup.quals
    It fails on the code: `_resolve_class` resolves class-level qualifiers with propagate=False. -/
@@ -434,6 +463,32 @@ theorem C12_class_qualifiers_per_flavor_fails_at :
   revert this
   decide
 
+/-! ### class_origin over whole histories -/
+
+/-- **class_origin names the ancestor that first introduced the element** — for ALL histories of
+    CreateClass / add_cimobjects / ModifyClass / DeleteClass / queries from the empty repository
+    (accepted or refused operations alike) whose submitted declarations use Override only to name the
+    element that carries it (`OpWF`; an Override naming a *different* superclass element is outside
+    the property):  for every stored class `c` and every property (method) `e` it exposes there is a
+    stored class `a` with  `e.class_origin = a.name`,  `a` is `c` itself or an ancestor of `c`
+    (`Spec.Desc`),  `a` exposes an element of that name, and `a`'s own superclass does not — i.e. `a`
+    is the highest class of `c`'s ancestor line that has the element (`OriginOK`/`Introduced`). -/
+theorem C12_class_origin_names_introducer (decls : List QDecl) (ops : List Op)
+    (hwf : ∀ op ∈ ops, OpWF op) :
+    OriginOK (·.props) (run { decls := decls } ops).1.classes ∧
+    OriginOK (·.meths) (run { decls := decls } ops).1.classes :=
+  ⟨originOK_run hsel_props (fun _ h => h.1) ops .nil (originOK_empty _) hwf,
+   originOK_run hsel_meths (fun _ h => h.2) ops .nil (originOK_empty _) hwf⟩
+
+/-- the statement unfolded for properties, as a reader would expect it -/
+theorem C12_class_origin_unfolded (decls : List QDecl) (ops : List Op) (hwf : ∀ op ∈ ops, OpWF op)
+    (c : Cls) (hc : c ∈ (run { decls := decls } ops).1.classes) (e : Elem) (he : e ∈ c.props) :
+    ∃ a, e.origin = some a.name ∧ a ∈ (run { decls := decls } ops).1.classes ∧
+      (a = c ∨ Spec.Desc (run { decls := decls } ops).1.classes c.name a.name) ∧
+      hasElem a.props e.name = true ∧
+      ∀ p ∈ (run { decls := decls } ops).1.classes, Spec.IsChild a p.name → hasElem p.props e.name = false :=
+  (C12_class_origin_names_introducer decls ops hwf).1 c hc e he
+
 /-! ### non-vacuity of the history theorems: a concrete accepted history -/
 
 /-- CreateClass(Base); CreateClass(Sub : bASE, overriding p); an instance of `SUB`; a second root -/
@@ -446,6 +501,7 @@ def wHistory : List Op :=
 def wState : State := (run { decls := [wOverride, wDesc] } wHistory).1
 
 example : Reachable wState := ⟨_, _, rfl⟩
+example : ∀ op ∈ wHistory, OpWF op := by decide
 example : wState.classes.map (·.name) = [['B','a','s','e'], ['S','u','b'], ['O','t','h','e','r']] := by decide
 example : subNames wState.classes (some ['b','a','s','e']) true = [['S','u','b']] := by decide
 example : superNames wState.classes ['s','u','b'] = .ok [['b','A','S','E']] := by decide
